@@ -3,6 +3,7 @@ package main
 // Property-specific streams.  Each is a pure function of (seed, index).
 
 import (
+	jmespath "github.com/jmespath/go-jmespath"
 	"math"
 	"strconv"
 	"strings"
@@ -145,6 +146,13 @@ func streamVProj(seed uint64, idx int) caseT {
 		rhs = toks{"[", g.intTok(2), "]"}
 	default:
 		rhs = g.rhs(el, 2)
+		// The multiset comparison is sound only while every suffix stays inside the wildcard's
+		// right-hand side.  A flatten ends it, and a bracket after a multi-select applies to the
+		// whole (order-dependent) list: keep the suffix only if the expression still is one
+		// value projection at the top.
+		if !topIsValueProjection(render(append(toks{"o", ".", "*"}, rhs...), 1, nil)) {
+			rhs = nil
+		}
 	}
 	g.noProj = false
 	left := toks{"o"}
@@ -160,6 +168,14 @@ func streamVProj(seed uint64, idx int) caseT {
 	}
 	expr := render(t, g.r.intn(3), g.r)
 	return caseT{lines: []string{"C " + hexField(expr), "SU " + hexField(expr) + " " + canonOf(doc)}}
+}
+
+func topIsValueProjection(expr string) bool {
+	jp, err := jmespath.Compile(expr)
+	if err != nil || jp == nil {
+		return false
+	}
+	return strings.HasPrefix(jmespath.VerifDumpAST(jmespath.VerifCompiledAST(jp)), "(ValueProjection")
 }
 
 // prec (C03): operator soups without parentheses; ASTs and results compared.
